@@ -261,6 +261,9 @@ func (fr *Frame) callStatic(site ssa.Instruction, f *ssa.Function, bindings []Va
 		return v
 	}
 	ct := vc.prog.contractFor(f)
+	if ct != nil && ct.Inline && !vc.refute && f != vc.top && !vc.sweep && fr.appliesModular(ct) {
+		return fr.applyContract(site, ct, f.Signature, f, args, st, rt)
+	}
 	if ct != nil && !ct.Inline && !vc.refute && (ct.Lib || f != vc.top) && !(vc.sweep && !ct.Lib) {
 		return fr.applyContract(site, ct, f.Signature, f, args, st, rt)
 	}
@@ -295,6 +298,21 @@ func (fr *Frame) callStatic(site ssa.Instruction, f *ssa.Function, bindings []Va
 	r := freshValue(rt, "lib."+f.Name(), vc.allocN)
 	vc.wellFormed(st, r)
 	return r
+}
+
+// appliesModular: the function under proof, or the function whose body is being executed, declares "modular <key>"
+func (fr *Frame) appliesModular(ct *Contract) bool {
+	for _, c := range []*Contract{fr.contract, fr.vc.contract} {
+		if c == nil {
+			continue
+		}
+		for _, m := range c.Modular {
+			if m == ct.Key {
+				return true
+			}
+		}
+	}
+	return false
 }
 
 func (fr *Frame) contractForInline(f *ssa.Function) *Contract {
@@ -460,6 +478,8 @@ func (fr *Frame) applyContract(site ssa.Instruction, ct *Contract, sig *types.Si
 			env[pnames[i]] = SVal{V: args[i], T: ptypes[i]}
 		}
 	}
+	// a contract that speaks about the order of a map iteration inside the callee: an order token of the callee's own
+	env["$mtok"] = SVal{V: Var(freshName("mtok@call"), SInt), T: intT}
 	pre := st.clone()
 	fr.curCallEnv = env
 	ev := &SpecEval{vc: vc, fr: fr, names: env, cur: pre, old: pre}
@@ -726,7 +746,7 @@ func (fr *Frame) frameCheck(st *State, addr *Term, t types.Type, label string, p
 		vc.oblige(st, "frame", "shared-write:"+label, ct.WritesProps, Le(IntLit(1), RootID(addr)), pos)
 		return
 	}
-	if ct == nil || ct.Inline || vc.sweep || vc.refute {
+	if ct == nil || (ct.Inline && !ct.UsedModular) || vc.sweep || vc.refute {
 		return
 	}
 	for _, a := range ct.Assigns {
